@@ -143,6 +143,54 @@ def basicValidateWith (parse : Bytes → Option (Bytes × Bytes)) (users : Bytes
 
 def basicValidate := basicValidateWith parseCreds
 
+/-! ## basicAuth across generations (hot update of the filter; C06 ∩ C11)
+
+Every generation of the Validator builds its own user cache (`NewBasicAuthValidator`: htpasswd file + fsnotify watcher, or etcd
+prefix + syncer) in `reload`; `Pipeline.Inherit` closes the previous generation afterwards. A live cache follows the file /
+etcd content. `shared = true` is the contrast semantics of seeded change C06-m5 (the new generation keeps the previous
+generation's cache, which `Close` of the previous generation then stops: a frozen snapshot). -/
+
+abbrev UserTable := List (Bytes × Bytes)
+
+/-- go-htpasswd: a later line for the same user replaces the earlier one -/
+def tableMatch (t : UserTable) (u p : Bytes) : Bool :=
+  match t.reverse.find? (·.1 = u) with
+  | some e => e.2 = p
+  | none => false
+
+inductive GenOp
+  | inherit
+  | update (t : UserTable)
+  | req (u p : Bytes)
+
+structure GenSt where
+  /-- current content of the htpasswd file / etcd prefix -/
+  table : UserTable
+  /-- what the current generation's cache holds -/
+  cache : UserTable
+  /-- the current generation's watcher / syncer is running -/
+  live : Bool
+
+def genStep (shared : Bool) (s : GenSt) : GenOp → GenSt × Option Bool
+  | .inherit => (if shared then { s with live := false } else { s with cache := s.table, live := true }, none)
+  | .update t => ({ s with table := t, cache := if s.live then t else s.cache }, none)
+  | .req u p => (s, some (tableMatch s.cache u p))
+
+/-- the answers (`Match(user, password)`) given to the requests of a history -/
+def genRun (shared : Bool) : GenSt → List GenOp → List Bool
+  | _, [] => []
+  | s, op :: r =>
+    match genStep shared s op with
+    | (s', some a) => a :: genRun shared s' r
+    | (s', none) => genRun shared s' r
+
+/-- the specification: every request is answered from the table current at that moment -/
+def genSpec : UserTable → List GenOp → List Bool
+  | _, [] => []
+  | t, .inherit :: r => genSpec t r
+  | _, .update t' :: r => genSpec t' r
+  | t, .req u p :: r => tableMatch t u p :: genSpec t r
+
 /-! ## Handle -/
 
 /-- `OAuth2Validator.Validate` in self-encoded access token mode (`spec.JWT`; `cookieName` is unused): the token is what follows
